@@ -1,6 +1,6 @@
 (* Threads_driver.ml — correspondence driver for the interleaving machine of Threads.v (C13).
    stdin: one case per line
-       <nmutex>[g]|<sched>|<prog0>|<prog1>|...
+       <nmutex>[g][s]|<sched>|<prog0>|<prog1>|...
      sched = comma separated thread ids (a schedule prefix; the run is completed round-robin)
      prog  = tokens separated by blanks:
        a0 a1  u<i>  c  s<k>,<v>  g<k>  m<k>  r<k>  e<v>  w<k>,<n>  o  y  t<e>
@@ -89,7 +89,7 @@ let () =
       match String.split_on_char '|' line with
       | nm :: sched :: progs ->
         (* a trailing g = the Thread objects are owned by the main thread's collector (nothing for the machine) *)
-        let nm = int_of_string (String.concat "" (String.split_on_char 'g' nm)) in
+        let nm = int_of_string (String.concat "" (String.split_on_char 's' (String.concat "" (String.split_on_char 'g' nm)))) in
         let progs = List.map parse_prog progs in
         let n = List.length progs in
         let sched = List.map (fun s -> nat_of_int (int_of_string s)) (split_on ',' sched) in
